@@ -306,8 +306,13 @@ Fixpoint rrun (fuel : nat) (sched : list bool) (r : rstate) : rstate :=
 
 Definition race_fuel : nat := 8.
 
-Definition race (row : option status) (p1 p2 : phase) (sched : list bool) : rstate :=
-  rrun race_fuel sched (mkR (init_thread false p1 None) (init_thread false p2 None) (mkS row [] None)).
+(* a fault position inside a racing delivery: one of its (at most four) row / lock operations *)
+Inductive fidx := F0 | F1 | F2 | F3.
+Definition fidx_nat (f : fidx) : nat := match f with F0 => 0 | F1 => 1 | F2 => 2 | F3 => 3 end.
+
+Definition race (row : option status) (p1 p2 : phase) (f1 f2 : option fidx) (sched : list bool) : rstate :=
+  rrun race_fuel sched (mkR (init_thread false p1 (option_map fidx_nat f1))
+                            (init_thread false p2 (option_map fidx_nat f2)) (mkS row [] None)).
 
 (* ---- the world: several branches sharing the fence table ------------------ *)
 Definition counters := (N * N * N)%type.      (* try, confirm, cancel effects committed *)
@@ -333,15 +338,15 @@ Definition add_effs (c : counters) (es : list phase) : counters := fold_left add
 
 Inductive hop :=
 | HDeliver (k : N) (ph : phase) (fault : option nat)
-| HRace (k : N) (p1 p2 : phase) (sched : list bool).
+| HRace (k : N) (p1 p2 : phase) (f1 f2 : option fidx) (sched : list bool).
 
-Definition hop_key (o : hop) : N := match o with HDeliver k _ _ => k | HRace k _ _ _ => k end.
+Definition hop_key (o : hop) : N := match o with HDeliver k _ _ => k | HRace k _ _ _ _ _ => k end.
 
 (* committed row and effects an operation leaves for a key whose row is [row] *)
 Definition hop_result (o : hop) (row : option status) : option status * list phase :=
   match o with
   | HDeliver _ ph fault => let '(_, sh) := deliver1 row ph fault in (s_row sh, s_effs sh)
-  | HRace _ p1 p2 sched => let sh := r_sh (race row p1 p2 sched) in (s_row sh, s_effs sh)
+  | HRace _ p1 p2 f1 f2 sched => let sh := r_sh (race row p1 p2 f1 f2 sched) in (s_row sh, s_effs sh)
   end.
 
 Definition apply_hop (w : world) (o : hop) : world :=
